@@ -11,9 +11,10 @@ oldest datagram the network may still replay and the newest one).  Without such 
 property is false for every protocol with 32-bit sequence numbers.
 -/
 import KcpVerif.Model.Kcp
+import KcpVerif.Lemmas.KcpFrame
 
 namespace KcpVerif.Recv
-open KcpVerif KcpVerif.Gen KcpVerif.Kcp
+open KcpVerif KcpVerif.Gen KcpVerif.Kcp KcpVerif.Frame
 
 /-- what the application cares about in a segment: the fragment countdown and the payload -/
 abbrev Content := BitVec 8 × Bytes
@@ -463,5 +464,248 @@ theorem recv_inv {G : U32 → Content} {sn0 : U32} {k : Kcp} {dl : List Content}
       refine ⟨Int.natCast_nonneg _, hne, popMsg_data _, rfl, ?_, recvK_inv h⟩
       show (popMsg k.rcv_queue).data.length ≤ buflen
       omega
+
+theorem InvR.same {G : U32 → Content} {sn0 : U32} {k k' : Kcp} {dl : List Content} {n : Nat}
+    (h : InvR G sn0 k dl n) (hs : RcvSame k k') : InvR G sn0 k' dl n :=
+  h.congr hs.rcv_nxt hs.rcv_queue hs.rcv_buf
+
+/-! ### Input -/
+
+/-- every PUSH frame that the parse loop of `Input` reaches in `data` (same framing, same early
+exits: short data, foreign `conv`, bad length, unknown command) carries the genuine content of its
+sequence number.  Nothing is required of ACK / WASK / WINS frames, of the other header fields of a
+PUSH frame, or of anything behind an early exit. -/
+def GenuineFrames (G : U32 → Content) (conv : U32) : Nat → Bytes → Prop
+  | 0, _ => True
+  | fuel + 1, data =>
+    if data.length < IKCP_OVERHEAD then True else
+    if (parseHdr data).conv ≠ conv then True else
+    if (data.drop IKCP_OVERHEAD).length < (parseHdr data).len ∨ (parseHdr data).len > mtuLimit then True else
+    if ¬ validCmd (parseHdr data).cmd then True else
+    ((parseHdr data).cmd.toNat = IKCP_CMD_PUSH →
+        content (pushSeg (parseHdr data) (data.drop IKCP_OVERHEAD)) = G (parseHdr data).sn) ∧
+      GenuineFrames G conv fuel ((data.drop IKCP_OVERHEAD).drop (parseHdr data).len)
+
+/-- a datagram whose PUSH segments are all genuine: the adversary may drop, duplicate, reorder,
+delay and replay datagrams, and inject arbitrary ACK/WASK/WINS segments, but cannot forge payload -/
+def GenuineIn (G : U32 → Content) (conv : U32) (d : Bytes) : Prop :=
+  GenuineFrames G conv (d.length / IKCP_OVERHEAD + 1) d
+
+instance decGenuineFrames (G : U32 → Content) (conv : U32) :
+    ∀ (fuel : Nat) (data : Bytes), Decidable (GenuineFrames G conv fuel data)
+  | 0, _ => isTrue trivial
+  | fuel + 1, data => by
+    unfold GenuineFrames
+    have := decGenuineFrames G conv fuel
+    infer_instance
+
+instance (G : U32 → Content) (conv : U32) (d : Bytes) : Decidable (GenuineIn G conv d) := by
+  unfold GenuineIn; infer_instance
+
+theorem inSt2_inv {G : U32 → Content} {sn0 : U32} {st1 : InLoop} {dl : List Content} {n : Nat}
+    (h : InvR G sn0 st1.k dl n) (hd : Hdr) (body : Bytes)
+    (hgen : hd.cmd.toNat = IKCP_CMD_PUSH → content (pushSeg hd body) = G hd.sn) :
+    (inSt2 st1 hd body).k.conv = st1.k.conv ∧ ∃ n', n ≤ n' ∧ InvR G sn0 (inSt2 st1 hd body).k dl n' := by
+  unfold inSt2
+  simp only []
+  split
+  · exact ⟨((parseAck_rcvSame _ _).trans (parseFastack_rcvSame _ _ _)).conv,
+      n, Nat.le_refl _, h.same ((parseAck_rcvSame _ _).trans (parseFastack_rcvSame _ _ _))⟩
+  · split
+    · rename_i hpush
+      split
+      · split
+        · have h' : InvR G sn0 { st1.k with acklist := st1.k.acklist ++ [⟨hd.sn, hd.ts⟩] } dl n :=
+            h.congr rfl rfl rfl
+          obtain ⟨n', hle, hi⟩ := parseData_inv h' (pushSeg hd body) (hgen hpush)
+          exact ⟨parseData_conv _ _, n', hle, hi⟩
+        · exact ⟨rfl, n, Nat.le_refl _, h.congr rfl rfl rfl⟩
+      · exact ⟨rfl, n, Nat.le_refl _, h⟩
+    · split
+      · exact ⟨rfl, n, Nat.le_refl _, h.congr rfl rfl rfl⟩
+      · exact ⟨rfl, n, Nat.le_refl _, h⟩
+
+/-- the parse loop of `Input` on a datagram with genuine PUSH frames -/
+theorem inputLoop_inv (G : U32 → Content) (sn0 : U32) (regular : Bool) (dl : List Content) :
+    ∀ (fuel : Nat) (data : Bytes) (st : InLoop) (n : Nat),
+      InvR G sn0 st.k dl n → GenuineFrames G st.k.conv fuel data →
+      ∃ n', n ≤ n' ∧ InvR G sn0 (inputLoop regular fuel data st).k dl n' := by
+  intro fuel
+  induction fuel with
+  | zero => intro data st n h _; exact ⟨n, Nat.le_refl _, h⟩
+  | succ fuel ih =>
+    intro data st n h hg
+    rw [inputLoop_succ]
+    unfold GenuineFrames at hg
+    by_cases c1 : data.length < IKCP_OVERHEAD
+    · rw [if_pos c1]; exact ⟨n, Nat.le_refl _, h⟩
+    · rw [if_neg c1] at hg ⊢
+      by_cases c2 : (parseHdr data).conv ≠ st.k.conv
+      · rw [if_pos c2]; exact ⟨n, Nat.le_refl _, h⟩
+      · rw [if_neg c2] at hg ⊢
+        by_cases c3 : (data.drop IKCP_OVERHEAD).length < (parseHdr data).len ∨ (parseHdr data).len > mtuLimit
+        · rw [if_pos c3]; exact ⟨n, Nat.le_refl _, h⟩
+        · rw [if_neg c3] at hg ⊢
+          by_cases c4 : ¬ validCmd (parseHdr data).cmd
+          · rw [if_pos c4]; exact ⟨n, Nat.le_refl _, h⟩
+          · rw [if_neg c4] at hg ⊢
+            have h1 : InvR G sn0 (inSt1 regular st (parseHdr data)).k dl n := h.same (inSt1_rcvSame _ _ _)
+            obtain ⟨hconv, n1, hle1, h2⟩ := inSt2_inv h1 (parseHdr data) (data.drop IKCP_OVERHEAD) hg.1
+            split
+            · exact ⟨n1, hle1, h2⟩
+            · have hc : (inSt2 (inSt1 regular st (parseHdr data)) (parseHdr data) (data.drop IKCP_OVERHEAD)).k.conv
+                  = st.k.conv := hconv.trans (inSt1_rcvSame _ _ _).conv
+              obtain ⟨n2, hle2, h3⟩ := ih _ _ n1 h2 (by rw [hc]; exact hg.2)
+              exact ⟨n2, by omega, h3⟩
+
+/-- `Input` with any datagram whose PUSH frames are genuine, any clock, any flags -/
+theorem input_inv {G : U32 → Content} {sn0 : U32} {k : Kcp} {dl : List Content} {n : Nat}
+    (h : InvR G sn0 k dl n) (data : Bytes) (regular ackNoDelay : Bool) (now : U32)
+    (hg : GenuineIn G k.conv data) :
+    ∃ n', n ≤ n' ∧ InvR G sn0 (input k data regular ackNoDelay now).k dl n' := by
+  rw [input_eq]
+  split
+  · exact ⟨n, Nat.le_refl _, h⟩
+  · obtain ⟨n', hle, hi⟩ := inputLoop_inv G sn0 regular dl _ data { k := k } n h hg
+    refine ⟨n', hle, ?_⟩
+    rcases inputTail_cases k (inputLoop regular (data.length / IKCP_OVERHEAD + 1) data { k := k })
+      regular ackNoDelay now with h1 | h1 | ⟨full, h1⟩
+    · rw [h1.1]; exact hi
+    · rw [h1.1]; exact hi.same (inputK2_same _ _ _ _).1
+    · rw [h1.1]; exact hi.same ((inputK2_same _ _ _ _).1.trans (flush_keep _ _ _).rcvSame)
+
+/-! ### message boundaries -/
+
+/-- the fragment countdown of the first `n` genuine segments is well formed: never 255 (the
+sender cuts a message into at most 255 fragments, numbered 254 … 0) and each non-final fragment is
+followed by the fragment with the next lower number -/
+def FrgOk (G : U32 → Content) (sn0 : U32) (n : Nat) : Prop :=
+  ∀ i, i < n → (G (sn0 + BitVec.ofNat 32 i)).1 ≠ 255 ∧
+    (i + 1 < n → (G (sn0 + BitVec.ofNat 32 i)).1 ≠ 0 →
+      (G (sn0 + BitVec.ofNat 32 (i + 1))).1 = (G (sn0 + BitVec.ofNat 32 i)).1 - 1)
+
+/-- in a queue with a well-formed countdown that is long enough for its first message, the merge
+loop stops at a `frg = 0` -/
+theorem popCount_countdown (q : List Seg) (s0 : Seg) (h0 : q[0]? = some s0)
+    (hcd : ∀ i a b, q[i]? = some a → q[i + 1]? = some b → a.frg ≠ 0 → b.frg = a.frg - 1)
+    (hlen : s0.frg.toNat + 1 ≤ q.length) :
+    ∃ s, q[popCount q - 1]? = some s ∧ s.frg = 0 ∧ popCount q = s0.frg.toNat + 1 := by
+  induction q generalizing s0 with
+  | nil => simp at h0
+  | cons a rest ih =>
+    have ha : a = s0 := by simpa using h0
+    subst ha
+    unfold popCount
+    split
+    · rename_i hz; exact ⟨a, rfl, hz, by rw [hz]; rfl⟩
+    · rename_i hnz
+      have hfpos : 0 < a.frg.toNat := by
+        have : a.frg.toNat ≠ 0 := fun hc => hnz (by bv_omega)
+        omega
+      cases rest with
+      | nil => simp at hlen; omega
+      | cons b rest' =>
+        have hb : b.frg = a.frg - 1 := hcd 0 a b rfl rfl hnz
+        have hbn : b.frg.toNat = a.frg.toNat - 1 := by rw [hb]; bv_omega
+        obtain ⟨s, hs, hs0, hpc⟩ := ih b rfl
+          (fun i x y hx hy hxn => hcd (i + 1) x y (by simpa using hx) (by simpa using hy) hxn)
+          (by simp at hlen ⊢; omega)
+        have hp := popCount_pos (b :: rest') (by simp)
+        refine ⟨s, ?_, hs0, by omega⟩
+        have : 1 + popCount (b :: rest') - 1 = (popCount (b :: rest') - 1) + 1 := by omega
+        rw [this]; simpa using hs
+
+theorem peekSize_len (k : Kcp) (s : Seg) (rest : List Seg) (hq : k.rcv_queue = s :: rest)
+    (h : ¬ k.peekSize < 0) (hnz : s.frg ≠ 0) : ¬ k.rcv_queue.length < (s.frg + 1).toNat := by
+  unfold peekSize at h
+  rw [hq] at h
+  simp only [] at h
+  rw [if_neg hnz] at h
+  intro hc
+  rw [hq] at hc
+  rw [if_pos hc] at h
+  exact h (by decide)
+
+/-- under `InvR` the queue is the segment of the genuine stream behind the delivered part -/
+theorem InvR.queue_get {G : U32 → Content} {sn0 : U32} {k : Kcp} {dl : List Content} {n : Nat}
+    (h : InvR G sn0 k dl n) (i : Nat) (s : Seg) (hs : k.rcv_queue[i]? = some s) :
+    content s = G (sn0 + BitVec.ofNat 32 (dl.length + i)) ∧ dl.length + i < n := by
+  have hi : i < k.rcv_queue.length := by
+    rcases Nat.lt_or_ge i k.rcv_queue.length with h1 | h1
+    · exact h1
+    · rw [List.getElem?_eq_none h1] at hs; cases hs
+  have hn := h.count
+  have h1 : (dl ++ k.rcv_queue.map content)[dl.length + i]? = some (content s) := by
+    rw [List.getElem?_append_right (by omega)]
+    simp [hs]
+  rw [h.pre] at h1
+  unfold gRange at h1
+  rw [List.getElem?_map] at h1
+  have h2 : (List.range n)[dl.length + i]? = some (dl.length + i) := by
+    rw [List.getElem?_range (by omega)]
+  rw [h2] at h1
+  simp at h1
+  exact ⟨h1.symm, by omega⟩
+
+/-- a successful `Recv` in a state with a well-formed countdown returns exactly one message: the
+payloads of the genuine segments `m … m + f` where `m` segments had been delivered before, `f` is
+the fragment number of segment `m`, segments `m … m+f-1` have `frg ≠ 0` and segment `m+f` has `frg = 0` -/
+theorem recv_msg {G : U32 → Content} {sn0 : U32} {k : Kcp} {dl : List Content} {n : Nat}
+    (h : InvR G sn0 k dl n) (hf : FrgOk G sn0 n) (buflen : Nat) (hok : 0 ≤ (recv k buflen).n) :
+    ∃ j, 1 ≤ j ∧ dl.length + j ≤ n ∧ popCount k.rcv_queue = j ∧
+      j = (G (sn0 + BitVec.ofNat 32 dl.length)).1.toNat + 1 ∧
+      (recv k buflen).data = ((k.rcv_queue.take j).map (·.data)).flatten ∧
+      (k.rcv_queue.take j).map content = (gRange G sn0 (dl.length + j)).drop dl.length ∧
+      (∀ i, i + 1 < j → (G (sn0 + BitVec.ofNat 32 (dl.length + i))).1 ≠ 0) ∧
+      (G (sn0 + BitVec.ofNat 32 (dl.length + j - 1))).1 = 0 := by
+  rcases recv_inv h buflen with ⟨hneg, _, _⟩ | ⟨_, hne, hdata, _, _, _⟩
+  · omega
+  · have h1 : ¬ k.peekSize < 0 := by
+      intro hc; rw [recv_fail1 k buflen hc] at hok
+      exact absurd hok (show ¬ (0 : Int) ≤ -1 by decide)
+    obtain ⟨s0, rest, hq⟩ := List.exists_cons_of_ne_nil hne
+    · skip
+      have hs0 := h.queue_get 0 s0 (by rw [hq]; rfl)
+      have hfrg0 : s0.frg = (G (sn0 + BitVec.ofNat 32 dl.length)).1 := by
+        have := congrArg Prod.fst hs0.1; simpa [content] using this
+      have hcd : ∀ i a b, k.rcv_queue[i]? = some a → k.rcv_queue[i + 1]? = some b → a.frg ≠ 0 →
+          b.frg = a.frg - 1 := by
+        intro i a b ha hb hnz
+        have ga := h.queue_get i a ha
+        have gb := h.queue_get (i + 1) b hb
+        have fa : a.frg = (G (sn0 + BitVec.ofNat 32 (dl.length + i))).1 := by
+          have := congrArg Prod.fst ga.1; simpa [content] using this
+        have fb : b.frg = (G (sn0 + BitVec.ofNat 32 (dl.length + i + 1))).1 := by
+          have := congrArg Prod.fst gb.1; simpa [content, Nat.add_assoc] using this
+        rw [fa, fb]
+        exact (hf (dl.length + i) ga.2).2 (by have := gb.2; omega) (by rw [← fa]; exact hnz)
+      have hlen : s0.frg.toNat + 1 ≤ k.rcv_queue.length := by
+        by_cases hz : s0.frg = 0
+        · rw [hz, hq]; simp
+        · have h255 : s0.frg ≠ 255 := by rw [hfrg0]; exact (hf dl.length (by have := hs0.2; omega)).1
+          have := peekSize_len k s0 rest hq h1 hz
+          have h2 : (s0.frg + 1).toNat = s0.frg.toNat + 1 := by
+            have : s0.frg.toNat ≠ 255 := fun hc => h255 (by bv_omega)
+            bv_omega
+          omega
+      obtain ⟨sl, hsl, hsl0, hpc⟩ := popCount_countdown k.rcv_queue s0 (by rw [hq]; rfl) hcd hlen
+      have hple := popCount_le k.rcv_queue
+      have hcnt := h.count
+      refine ⟨popCount k.rcv_queue, by omega, by omega, rfl, by rw [hpc, hfrg0], ?_, ?_, ?_, ?_⟩
+      · exact hdata
+      · have e1 : (gRange G sn0 (dl.length + popCount k.rcv_queue)) =
+            (gRange G sn0 n).take (dl.length + popCount k.rcv_queue) := (gRange_take G sn0 n _ (by omega)).symm
+        rw [e1, ← h.pre, List.take_length_add_append, List.drop_left, List.map_take]
+      · intro i hi
+        obtain ⟨x, hx, hxn⟩ := popCount_frg_ne k.rcv_queue i hi
+        have gx := h.queue_get i x hx
+        have : x.frg = (G (sn0 + BitVec.ofNat 32 (dl.length + i))).1 := by
+          have := congrArg Prod.fst gx.1; simpa [content] using this
+        rw [← this]; exact hxn
+      · have gl := h.queue_get (popCount k.rcv_queue - 1) sl hsl
+        have : sl.frg = (G (sn0 + BitVec.ofNat 32 (dl.length + (popCount k.rcv_queue - 1)))).1 := by
+          have := congrArg Prod.fst gl.1; simpa [content] using this
+        have e : dl.length + popCount k.rcv_queue - 1 = dl.length + (popCount k.rcv_queue - 1) := by omega
+        rw [e, ← this]; exact hsl0
 
 end KcpVerif.Recv
